@@ -109,12 +109,12 @@ Print Assumptions C01_checklist_next_check_exact_partial.
     some pair of some stream is WAITING or FROZEN (whatever else is IN_PROGRESS); otherwise it does nothing at all *)
 Theorem C01_checklist_scheduler_progress_partial : forall rfc ctl ss, Forall (fun s => s_creds s = true) ss ->
   (exists s p, In s ss /\ In p (s_pairs s) /\ (p_state p = Waiting \/ p_state p = Frozen)) ->
-  fst (fst (ordinary_agent rfc ctl (fun _ => true) ss)) = true.
+  exists ss' o, ordinary_agent rfc ctl (fun _ => true) ss = Some (true, ss', o).
 Proof. exact ordinary_agent_progress. Qed.
 Print Assumptions C01_checklist_scheduler_progress_partial.
 Theorem C01_checklist_scheduler_idle_partial : forall rfc ctl ok ss,
   (forall s p, In s ss -> In p (s_pairs s) -> p_state p <> Waiting /\ p_state p <> Frozen) ->
-  ordinary_agent rfc ctl ok ss = (false, ss, []).
+  ordinary_agent rfc ctl ok ss = Some (false, ss, []).
 Proof. exact ordinary_agent_idle. Qed.
 Print Assumptions C01_checklist_scheduler_idle_partial.
 
@@ -150,16 +150,49 @@ Theorem C01_checklist_prune_idempotent_partial : forall cid sel l, prune cid sel
 Proof. exact prune_idempotent. Qed.
 Print Assumptions C01_checklist_prune_idempotent_partial.
 
-(** ** the READY and FAILED decisions *)
-Theorem C01_checklist_ready_only_if_partial : forall l c l' c' o, for_ready l c = (l', c', o) -> In st_READY o ->
+(** ** the READY and FAILED decisions (conn_check_update_check_list_state_for_ready as of e3eeaf1: with no selected pair - local == NULL - the
+    first valid nominated pair of the component takes over before the pruning step; [takeover l c] is the component after that step and the
+    new-selected-pair announcement, if any; a result None = the g_assert (priority > 0) of the pruning step fails, the process aborts) *)
+Theorem C01_checklist_takeover_partial : forall l c, let c1 := fst (takeover l c) in
+  c_id c1 = c_id c /\ c_state c1 = c_state c /\ c_remote c1 = c_remote c /\ c_sel c <= c_sel c1 /\
+  (c_sel_local c <> 0 -> takeover l c = (c, [])) /\
+  (forall b, best_nominated_valid (c_id c) l = Some b -> c_sel_local c = 0 ->
+     c_sel c1 = Z.max (c_sel c) (p_prio b) /\
+     (c_sel c < p_prio b -> c_sel_local c1 = p_local b /\ c_sel_remote c1 = p_remote b /\ snd (takeover l c) = [sg_SELECTED]) /\
+     (p_prio b <= c_sel c -> takeover l c = (c, []))).
+Proof. exact takeover_spec. Qed.
+Print Assumptions C01_checklist_takeover_partial.
+(** the pair that takes over is the FIRST valid nominated pair of the component in list order *)
+Theorem C01_checklist_takeover_pair_is_first_partial : forall cid l b, best_nominated_valid cid l = Some b ->
+  p_comp b = cid /\ p_valid b = true /\ p_nom b = true /\
+  exists l1 l2, l = l1 ++ b :: l2 /\ has_nominated_valid cid l1 = false.
+Proof. exact best_nv_some. Qed.
+Print Assumptions C01_checklist_takeover_pair_is_first_partial.
+(** the assertion of the pruning step can no longer fail inside the READY decision: pair priorities being positive, and the selected pair - when
+    there is one - having a positive priority, the decision always returns *)
+Theorem C01_checklist_ready_decision_never_asserts_partial : forall l c,
+  (c_sel_local c <> 0 -> 0 < c_sel c) ->
+  (forall p, In p l -> p_comp p = c_id c -> p_valid p = true -> p_nom p = true -> 0 < p_prio p) ->
+  for_ready l c <> None.
+Proof. exact for_ready_never_asserts. Qed.
+Print Assumptions C01_checklist_ready_decision_never_asserts_partial.
+Theorem C01_checklist_ready_decision_without_selected_pair_partial : forall l c, c_sel_local c = 0 ->
+  (forall p, In p l -> p_comp p = c_id c -> p_valid p = true -> p_nom p = true -> 0 < p_prio p) -> for_ready l c <> None.
+Proof. exact for_ready_no_selected_pair. Qed.
+Print Assumptions C01_checklist_ready_decision_without_selected_pair_partial.
+Theorem C01_checklist_ready_decision_asserts_iff_partial : forall l c, for_ready l c = None <-> faults l c = true.
+Proof. exact for_ready_asserts_iff. Qed.
+Print Assumptions C01_checklist_ready_decision_asserts_iff_partial.
+Theorem C01_checklist_ready_only_if_partial : forall l c l' c' o, for_ready l c = Some (l', c', o) -> In st_READY o ->
   (exists p, In p l /\ p_comp p = c_id c /\ p_valid p = true /\ p_nom p = true) /\
-  (forall q, In q l -> p_comp q = c_id c -> c_sel c <= p_prio q -> p_state q <> InProgress /\ p_trig q = false).
+  (forall q, In q l -> p_comp q = c_id c -> c_sel (fst (takeover l c)) <= p_prio q -> p_state q <> InProgress /\ p_trig q = false).
 Proof. exact ready_only_if. Qed.
 Print Assumptions C01_checklist_ready_only_if_partial.
 Theorem C01_checklist_ready_if_partial : forall l c, (exists p, In p l /\ p_comp p = c_id c /\ p_valid p = true /\ p_nom p = true) ->
-  (forall q, In q l -> p_comp q = c_id c -> c_sel c <= p_prio q -> p_state q <> InProgress /\ p_trig q = false) ->
-  let '(l', c', o) := for_ready l c in
-  c_state c' = st_READY /\ l' = snd (prune (c_id c) (c_sel c) l) /\ (c_state c <> st_READY -> last o 0 = st_READY).
+  (forall q, In q l -> p_comp q = c_id c -> c_sel (fst (takeover l c)) <= p_prio q -> p_state q <> InProgress /\ p_trig q = false) ->
+  0 < c_sel (fst (takeover l c)) ->
+  exists l' c' o, for_ready l c = Some (l', c', o) /\
+  c_state c' = st_READY /\ l' = snd (prune (c_id c) (c_sel (fst (takeover l c))) l) /\ (c_state c <> st_READY -> last o 0 = st_READY).
 Proof. exact ready_if. Qed.
 Print Assumptions C01_checklist_ready_if_partial.
 Theorem C01_checklist_failed_iff_partial : forall disc l cs cid st, In (cid, st) (snd (failed_components disc l cs)) <->
@@ -171,10 +204,12 @@ Print Assumptions C01_checklist_failed_iff_partial.
 Theorem C01_checklist_ready_excludes_failed_partial : forall l c c2, c_id c2 = c_id c -> goes_ready l c = true -> fails l c2 = false.
 Proof. exact ready_excludes_failed. Qed.
 Print Assumptions C01_checklist_ready_excludes_failed_partial.
-Theorem C01_checklist_failed_excludes_ready_partial : forall l c c2, c_id c2 = c_id c -> fails l c2 = true -> for_ready l c = (l, c, []).
+Theorem C01_checklist_failed_excludes_ready_partial : forall l c c2, c_id c2 = c_id c -> fails l c2 = true -> for_ready l c = Some (l, c, []).
 Proof. exact failed_excludes_ready. Qed.
 Print Assumptions C01_checklist_failed_excludes_ready_partial.
-Theorem C01_checklist_ready_decision_idempotent_partial : forall l c, let '(l1, c1, o1) := for_ready l c in for_ready l1 c1 = (l1, c1, []).
+(** (candidate pointers of pairs are never NULL; without a selected pair the selected priority is 0: nice_component_clear_selected_pair) *)
+Theorem C01_checklist_ready_decision_idempotent_partial : forall l c l1 c1 o1, (forall p, In p l -> p_local p <> 0) -> (c_sel_local c = 0 -> c_sel c = 0) ->
+  for_ready l c = Some (l1, c1, o1) -> for_ready l1 c1 = Some (l1, c1, []).
 Proof. exact for_ready_idempotent. Qed.
 Print Assumptions C01_checklist_ready_decision_idempotent_partial.
 Theorem C01_checklist_failed_decision_idempotent_partial : forall disc l cs,
@@ -202,23 +237,30 @@ Print Assumptions C01_checklist_nomination_needs_valid_partial.
 Theorem C01_checklist_nomination_of_valid_pair_partial : forall rfc p res L c out t0,
   find_id (if is_state Succeeded p && negb (p_disc p =? 0) then p_disc p else p_id p) L = Some t0 -> p_valid t0 = true ->
   mark_body rfc p (res, L, c, out) =
-  let '(c2, o2) := comp_step c (p_prio t0) in
-  let '(L3, c3, o3) := for_ready (nominate_target rfc t0 L) c2 in Some (true, L3, c3, out ++ o2 ++ o3).
+  let '(c2, o2) := comp_step c t0 in
+  match for_ready (nominate_target rfc t0 L) c2 with
+  | None => None
+  | Some (L3, c3, o3) => Some (true, L3, c3, out ++ o2 ++ o3)
+  end.
 Proof. exact mark_body_valid. Qed.
 Print Assumptions C01_checklist_nomination_of_valid_pair_partial.
 (** the selected priority only grows; FAILED and CONNECTING components end CONNECTED before the READY decision, others keep their state *)
-Theorem C01_checklist_nomination_component_step_partial : forall c prio, let c2 := fst (comp_step c prio) in
-  c_sel c2 = Z.max (c_sel c) prio /\ c_id c2 = c_id c /\ c_remote c2 = c_remote c /\
+Theorem C01_checklist_nomination_component_step_partial : forall c t0, let c2 := fst (comp_step c t0) in
+  c_sel c2 = Z.max (c_sel c) (p_prio t0) /\ c_id c2 = c_id c /\ c_remote c2 = c_remote c /\
   (c_state c = st_FAILED \/ c_state c = st_CONNECTING -> c_state c2 = st_CONNECTED) /\
-  (c_state c <> st_FAILED -> c_state c <> st_CONNECTING -> c_state c2 = c_state c /\ snd (comp_step c prio) = []).
+  (c_state c <> st_FAILED -> c_state c <> st_CONNECTING ->
+     c_state c2 = c_state c /\ snd (comp_step c t0) = if c_sel c <? p_prio t0 then [sg_SELECTED] else []) /\
+  (c_sel c < p_prio t0 -> c_sel_local c2 = p_local t0 /\ c_sel_remote c2 = p_remote t0) /\
+  (p_prio t0 <= c_sel c -> c_sel_local c2 = c_sel_local c /\ c_sel_remote c2 = c_sel_remote c).
 Proof. exact comp_step_spec. Qed.
 Print Assumptions C01_checklist_nomination_component_step_partial.
-(** memory safety of the loop (the model yields None where the C code reads freed memory): neither the link under the cursor nor a
+(** the function neither aborts nor reads freed memory (the model yields None where the C code does either): neither the link under the cursor nor a
     discovered_pair it follows is deleted by the pruning the body triggers, provided no pair of the nominated candidates - nor the pair
     discovered by it - is FROZEN, WAITING or queued for a triggered check, and discovered_pair does not dangle at entry.
     The two witnesses at the end show lists outside this condition on which the real function reads freed memory (ASan-confirmed) *)
 Theorem C01_checklist_nomination_loop_memory_safe_partial : forall rfc ctl l c lc rc,
   (forall p, In p l -> matches lc rc p = true -> safe p /\ exists t, In t l /\ p_id t = tid p /\ safe t) ->
+  (c_sel_local c <> 0 -> 0 < c_sel c) -> (forall q, In q l -> 0 < p_prio q) ->
   mark_nominated rfc ctl l c lc rc <> None.
 Proof. exact mark_nominated_memory_safe. Qed.
 Print Assumptions C01_checklist_nomination_loop_memory_safe_partial.
@@ -233,31 +275,37 @@ Example C01_checklist_rfc8445_equal_priority_lowest_component_refuted :
   sorted_desc l /\ option_map p_comp (find_next_waiting l) = Some 2.
 Proof. exact rfc8445_equal_priority_lowest_component_refuted. Qed.
 Example C01_checklist_ready_needs_succeeded_pair_refuted :
-  for_ready [mk 1 1 1 1 50 Failed true true false] (mkComp 1 st_CONNECTED 50 true)
-  = ([mk 1 1 1 1 50 Failed true true false], mkComp 1 st_READY 50 true, [st_READY]).
+  for_ready [mk 1 1 1 1 50 Failed true true false] (mkComp 1 st_CONNECTED 50 1 1 true)
+  = Some ([mk 1 1 1 1 50 Failed true true false], mkComp 1 st_READY 50 1 1 true, [st_READY]).
 Proof. exact ready_with_failed_nominated_pair_refuted. Qed.
 Example C01_checklist_ready_waits_for_better_pairs_refuted :
-  for_ready [mk 1 1 1 1 90 Frozen false false false; mk 2 1 2 2 50 Succeeded true true false] (mkComp 1 st_CONNECTED 50 true)
-  = ([mk 2 1 2 2 50 Succeeded true true false], mkComp 1 st_READY 50 true, [st_READY]).
+  for_ready [mk 1 1 1 1 90 Frozen false false false; mk 2 1 2 2 50 Succeeded true true false] (mkComp 1 st_CONNECTED 50 2 2 true)
+  = Some ([mk 2 1 2 2 50 Succeeded true true false], mkComp 1 st_READY 50 2 2 true, [st_READY]).
 Proof. exact ready_discards_untried_better_pair. Qed.
 Example C01_checklist_prune_never_removes_nominated_refuted :
   prune 1 80 [mk 1 1 1 1 80 Succeeded true true false; mk 2 1 2 2 50 Succeeded true true true]
   = (0, [mk 1 1 1 1 80 Succeeded true true false]).
 Proof. exact prune_never_removes_nominated_refuted. Qed.
 Example C01_checklist_failed_means_all_pairs_failed_refuted :
-  failed_components false [mk 1 1 1 1 50 Succeeded false true false] [mkComp 1 st_CONNECTED 0 true]
-  = ([mkComp 1 st_FAILED 0 true], [(1, st_FAILED)]).
+  failed_components false [mk 1 1 1 1 50 Succeeded false true false] [mkComp 1 st_CONNECTED 0 0 0 true]
+  = ([mkComp 1 st_FAILED 0 0 0 true], [(1, st_FAILED)]).
 Proof. exact failed_with_valid_pairs_refuted. Qed.
 Example C01_checklist_nomination_loop_cursor_freed :
-  mark_nominated false false [mk 1 1 1 1 80 Succeeded true true false; mk 2 1 2 2 50 Waiting false false true] (mkComp 1 st_READY 80 true) 2 2 = None.
+  mark_nominated false false [mk 1 1 1 1 80 Succeeded true true false; mk 2 1 2 2 50 Waiting false false true] (mkComp 1 st_READY 80 1 1 true) 2 2 = None.
 Proof. exact mark_nominated_cursor_freed. Qed.
 Example C01_checklist_dangling_discovered_pair_after_prune :
   let parent := mkPair 1 1 1 1 1 1 90 Succeeded false false false false false false false 2 in
   let disc := mkPair 2 1 3 1 3 1 40 Discovered true true false false false false true 0 in
   let best := mk 3 1 5 5 80 Succeeded true true false in
   prune 1 80 [parent; best; disc] = (0, [parent; best]) /\
-  mark_nominated false false [parent; best] (mkComp 1 st_READY 80 true) 1 1 = None.
+  mark_nominated false false [parent; best] (mkComp 1 st_READY 80 5 5 true) 1 1 = None.
 Proof. exact dangling_discovered_pair_after_prune. Qed.
+(** regression witness of e3eeaf1 (no selected pair, one valid nominated pair: the pruning step used to be entered with priority 0) *)
+Example C01_checklist_ready_decision_without_selected_pair_regression :
+  let l := [mk 1 1 1 1 50 Succeeded true true false] in
+  prune_chk 1 0 l = None /\
+  for_ready l (mkComp 1 st_CONNECTED 0 0 0 true) = Some (l, mkComp 1 st_READY 50 1 1 true, [sg_SELECTED; st_READY]).
+Proof. exact for_ready_without_selected_pair_regression. Qed.
 Example C01_checklist_unfreeze_progress_example :
   unfreeze_next [[mk 1 1 7 7 30 Frozen false false false; mk 2 2 7 7 20 Frozen false false false]; [mk 3 1 8 7 10 Frozen false false false]]
   = (true, [[mk 1 1 7 7 30 Waiting false false false; mk 2 2 7 7 20 Frozen false false false]; [mk 3 1 8 7 10 Waiting false false false]]).
